@@ -2040,13 +2040,19 @@ class TargetRegistry:
             return OrderedDict()
 
     def _get_closest_type(self, obj, type_tree):
-        default = None
+        candidates = []
         for cur_type, sub_tree in type_tree.items():
             if isinstance(obj, cur_type):
                 sub_type = self._get_closest_type(obj, type_tree=sub_tree)
-                ret = cur_type if sub_type is None else sub_type
-                return ret
-        return default
+                candidates.append(cur_type if sub_type is None else sub_type)
+        if not candidates:
+            return None
+        # several unrelated registered types can match (mixins, ABCs,
+        # duck types): prefer the one closest in the object's MRO, so
+        # that a real base class is never shadowed by a less specific
+        # match; ties keep registration order
+        mro = type(obj).__mro__
+        return min(candidates, key=lambda t: mro.index(t) if t in mro else len(mro))
 
     def _register_default_types(self):
         self.register(object)
